@@ -216,6 +216,7 @@ def cases():
         if kind == "map":
             c["mc"] = draw(st.sampled_from([None, 0, 1, 2]))
         c["long_form"] = kind == "parallel" and draw(st.integers(0, 3)) == 0
+        c["dup_replies"] = 0.5 if draw(st.integers(0, 3)) == 0 else 0      # workers that answer twice (replies to cancelled siblings become repeated orphans)
         free = [i for i in range(n) if not fails[i]]
         if kind == "parallel" and free and any(fails) and draw(st.integers(0, 2)) == 0:
             c["inner_catch"] = draw(st.sampled_from(free))
@@ -256,7 +257,7 @@ def shard(k, seed, tier, examples=60):
         case, sched, starts = t
         c = {"definition": case["definition"], "input": case["input"], "oracle": case["oracle"], "type": case["type"], "c06": case["c06"], "schedule": sched, "starts": starts}
         try:
-            fails, res = mon.evaluate(spec, case, sched, starts, seed=seed)
+            fails, res = mon.evaluate(spec, case, sched, starts, seed=seed, extra_kwargs={"dup_replies": case["c06"].get("dup_replies", 0)})
         except Exception as e:
             camp.harness_error("case crashed the harness: %r %s %s" % (e, traceback.format_exc()[-700:], json.dumps(c)[:600]))
             return
@@ -265,7 +266,7 @@ def shard(k, seed, tier, examples=60):
         camp.case(c, nontrivial=nontrivial(case, sched, starts, res["info"]),
                   classes=["kind-" + c6["kind"], "failing-%s" % ("none" if nfail == 0 else "one" if nfail == 1 else "all" if nfail == c6["n"] else "several"),
                            "handlers-" + ("+".join(h for h in ("retry", "catch") if c6.get(h)) or "none"), "outer" if c6.get("outer") else "flat", "type-" + case["type"],
-                           "schedule-" + ("deviating" if any(sched) else "canonical")] + ["failkind-" + f for f in set(x for x in c6["fails"] if x)],
+                           "schedule-" + ("deviating" if any(sched) else "canonical")] + (["workers-reply-twice"] if c6.get("dup_replies") else []) + ["failkind-" + f for f in set(x for x in c6["fails"] if x)],
                   sample=dict(c, outcomes=res["info"].get("outcomes"), trace=res["info"].get("trace", [])[:20]))
         for b, d in tag(fails, c6):
             camp.fail(b, c, d)
@@ -284,7 +285,7 @@ def replay_case(case):
     spec = mon.SPECS[PID]
     c = {k: case[k] for k in ("definition", "input", "oracle", "type", "c06")}
     c["features"] = []
-    fails, _ = mon.evaluate(spec, c, case.get("schedule", []), case.get("starts"))
+    fails, _ = mon.evaluate(spec, c, case.get("schedule", []), case.get("starts"), extra_kwargs={"dup_replies": case["c06"].get("dup_replies", 0)})
     return tag(fails, case["c06"])
 
 
